@@ -215,6 +215,16 @@ def run_cases(inp):
             d["roles"] = {r: {"features": {f: True for f in fl}}}
             raw[2] = d
             check = ("features", r, fl)
+        elif c["what"] == "pt":
+            ai = ty["pos"].index("args") + 1
+            raw = raw[:ai]
+            while len(raw) <= ty["optpos"]:
+                raw.append({})
+            algo = {"algo_true": True, "algo_int": 1, "algo_list": [1], "algo_bytes": b"x"}.get(c["key"], "cryptobox")
+            raw[ty["optpos"]] = dict(raw[ty["optpos"]], enc_algo=algo)
+            raw.append(b"\x01opaque\xff")
+            if c["key"].startswith("extra"):
+                raw.append({} if c["key"] == "extra_dict" else [1])
         elif c["what"] == "role":
             r = c["key"]
             v = concretise(c["c"])
